@@ -503,6 +503,84 @@ def neigh_task(t, res):
                      f"in a fresh interpreter: {o['fp']} vs {iso}", dict(kind="neigh", label=label, i=o["i"], tier=t["tier"]))
 
 
+# ------------------------------------------------------------------ ladders: sizes, counts and seeds beyond the small scope
+# The history layers above use 3x3 / 4x4 grids and a few mazes. A rule that changes with the SIZE of the request (a fast path for large
+# grids, a batch boundary, a seed range) is invisible there whatever the history. For every rung of three ladders - grid_n 2..32 (Prim ..16, Wilson
+# ..10; thorough ..64 / ..32 / ..20) for every generator, n_mazes 1..40, 64..66, 100..102, 128..130 (thorough also 256..258, 1000..1002), seeds
+# around 0, 2^31, 2^32, 2^63 and negative - the configuration is generated, every draw operation of the history alphabet is applied
+# (python random, numpy global, torch, the library's own Generator, a shuffling tokenization), it is generated again, reached again through
+# from_config without a cache, and compared. A configuration the library refuses to construct (seed out of numpy's range) is not claimed.
+LADDER_GENS = [("gen_dfs", {}), ("gen_dfs", dict(do_forks=False)), ("gen_prim", {}), ("gen_wilson", {}), ("gen_percolation", dict(p=0.45)),
+               ("gen_dfs_percolation", dict(p=0.25)), ("gen_dfs", dict(accessible_cells=0.7, max_tree_depth=0.6))]
+LADDER_SEEDS = [-1, -2 ** 31, 1, 2 ** 31 - 1, 2 ** 31, 2 ** 32 - 1, 2 ** 32, 2 ** 32 + 5, 2 ** 63 - 1, 2 ** 63, 2 ** 64 + 3]
+
+
+def ladder_rungs(tier):
+    quick = tier == "quick"
+    out = []
+    for gi, (g, kw) in enumerate(LADDER_GENS):
+        top = (10 if quick else 20) if g == "gen_wilson" else (16 if quick else 32) if g == "gen_prim" else (32 if quick else 64)
+        for n in range(2, top + 1):
+            out.append(dict(gen=g, kw=kw, grid=n, n=2, seed=100 + gi))
+    counts = list(range(1, 41)) + [64, 65, 66, 100, 101, 102, 128, 129, 130] + ([] if quick else [256, 257, 258, 1000, 1001, 1002])
+    for n in counts:
+        out.append(dict(gen="gen_dfs", kw={}, grid=3, n=n, seed=7))
+        out.append(dict(gen="gen_dfs_percolation", kw=dict(p=0.3), grid=3, n=n, seed=8))
+    for sd in LADDER_SEEDS:
+        for g, kw in (("gen_dfs", {}), ("gen_wilson", {}), ("gen_percolation", dict(p=0.5))):
+            out.append(dict(gen=g, kw=kw, grid=4, n=3, seed=sd))
+    return out
+
+
+def _bucket(v, marks):
+    return next((f"<={m}" for m in marks if v <= m), f">{marks[-1]}")
+
+
+def ladder_one(sp, res):
+    from maze_dataset import MazeDataset
+
+    res.ev()
+    what = f"{sp['gen']}{json.dumps(sp['kw'], sort_keys=True)} grid_n={sp['grid']} n_mazes={sp['n']} seed={sp['seed']}"
+    cls = f"{sp['gen']}|grid{_bucket(sp['grid'], (4, 8, 16, 27, 40))}|n{_bucket(sp['n'], (8, 64, 100, 128, 256, 1000))}|seed{_bucket(sp['seed'], (-1, 2 ** 31 - 1, 2 ** 32 - 1, 2 ** 63 - 1))}"
+    rd = dict(kind="ladder", spec=sp)
+    try:
+        cfg = make_cfg(sp)
+    except Exception as e:  # noqa: BLE001
+        res.count("ladder_configs_refused_at_construction")
+        return
+    def outcome(fn):
+        # a documented refusal (e.g. percolation leaving the start cell isolated: ValueError from the endpoint draw) is an outcome like any
+        # other: the claim is that it is the SAME outcome every time
+        try:
+            return fp_dataset(fn())
+        except Exception as e:  # noqa: BLE001
+            return f"raises:{type(e).__name__}:{str(e)[:80]}"
+
+    a = outcome(lambda: MazeDataset.generate(make_cfg(sp), gen_parallel=False))
+    for op in ("py_draw", "np_draw", "torch_draw", "gen_draw", "tokenize_shuffle"):
+        apply_history_op(op, None)
+    b = outcome(lambda: MazeDataset.generate(make_cfg(sp), gen_parallel=False))
+    apply_history_op("np_draw", None)
+    apply_history_op("gen_draw", None)
+    c = outcome(lambda: MazeDataset.from_config(cfg, load_local=False, save_local=False, do_download=False, gen_parallel=False))
+    if not a.startswith("raises:"):
+        res.nontrivial(("ladder", sp["gen"], json.dumps(sp["kw"], sort_keys=True), sp["grid"], sp["n"], sp["seed"]))
+    else:
+        res.count("ladder_rungs_with_documented_refusal")
+    if a != b:
+        res.fail(f"C04|ladder|{cls}|second_generation_differs", f"{what}: generated twice in one process, with draws from python random, the numpy global RNG, torch, the library's "
+                 f"Generator and a shuffling tokenization in between: {a} vs {b}", rd)
+    elif c != a:
+        res.fail(f"C04|ladder|{cls}|from_config_differs", f"{what}: from_config without a cache gives {c}, generate gave {a}", rd)
+
+
+def ladder_task(t, res):
+    R_ = ladder_rungs(t["tier"])
+    for sp in R_[t["start"]::t["stride"]]:
+        ladder_one(sp, res)
+        res.count("ladder_rungs")
+
+
 def replay_neigh(d, res):
     label = d["label"]
     iso = run_child2(dict(mode="iso", tier=d["tier"], labels=[label]))[label]
@@ -523,6 +601,7 @@ def run(ctx):
     labels = [l for l, _ in observed_cfgs(ctx.tier)]
     ctx.pmap("mzcheck.checks.c04", "iso_task", [dict(tier=ctx.tier, labels=[l]) for l in labels] + [dict(tier=ctx.tier, labels=labels[::-1])])
     ctx.pmap("mzcheck.checks.c04", "neigh_task", [dict(tier=ctx.tier, label=l) for l in labels])
+    ctx.pmap("mzcheck.checks.c04", "ladder_task", [dict(tier=ctx.tier, start=k, stride=48) for k in range(48)])
     ref = dict(ctx.res.sets.get("ref_fps", ()))
     raises = {l for l in labels if l not in ref}
     for l, how, f in sorted(ctx.res.sets.get("iso_fps", ())):
@@ -558,6 +637,8 @@ def replay(d, res):
 
     if d.get("kind") == "neigh":
         return replay_neigh(d, res)
+    if d.get("kind") == "ladder":
+        return ladder_one(d["spec"], res)
     if d.get("kind") == "iso":
         labels = [l for l, _ in observed_cfgs(d["tier"])]
         alone = run_child2(dict(mode="iso", tier=d["tier"], labels=[d["label"]]))[d["label"]]
